@@ -77,7 +77,7 @@ Proof.
     pose proof (astep_rid _ _ _ Ha) as Hrid.
     pose proof (after_parse_fields s q1 fresh) as F. cbv zeta in F, Hcase.
     set (s1 := after_parse s q1 fresh) in *.
-    destruct F as (F1 & F2 & F3 & F4 & F5 & F6 & F7 & F8 & F9 & F10 & F11 & F12 & F13 & F14).
+    destruct F as (F1 & F2 & F3 & F4 & F5 & F6 & F7 & F8 & F9 & F10 & F11 & F13 & F14).
     pose proof (A_ids s HA) as I.
     assert (Hq1 : rid q1 < next_id s1 /\ asc (requests s) (rid q1)).
     { rewrite F13. destruct (request s) as [q|]; destruct Hq0 as [E1 E2]; rewrite E2, Hrid, E1.
@@ -90,7 +90,7 @@ Proof.
     destruct Hcase as [[Hw ->]|[Hw [l' Hc]]].
     + eapply InvB_mono; [exact B1|reflexivity|]. unfold ub. simpl. rewrite F1. simpl. lia.
     + pose proof (io_complete_spec _ _ _ _ Hc) as S.
-      destruct S as (S1 & S2 & S3 & S4 & S5 & S6 & S7 & S8 & S9 & S10 & S11).
+      destruct S as (S1 & S2 & S3 & S4 & S5 & S6 & S8 & S9 & S10 & S11).
       eapply InvB_mono; [exact B1|assumption|].
       destruct S11 as [(q & Sq & Sc & Se & Sr & Ssc & Srs & Sqd)|[(q & Sq & Sc & Se & Sr & Ssc & Srs & Sqd)|(Sc & Sr & Ssc & Srs & Sqd)]].
       * rewrite F1 in Sq. inv_some. unfold ub. rewrite Srs, F1, F2.
@@ -106,13 +106,14 @@ Proof.
     pose proof (do_send_spec _ _ _ _ Ed q Eq) as D.
     destruct D as (D1 & D2 & D3 & D4 & D5 & D6 & D7 & D8 & D9 & D10 & D11 & D12 & D13 & D14).
     pose proof (io_complete_spec _ _ _ _ Ec) as S.
-    destruct S as (S1 & S2 & S3 & S4 & S5 & S6 & S7 & S8 & S9 & S10 & S11).
+    destruct S as (S1 & S2 & S3 & S4 & S5 & S6 & S8 & S9 & S10 & S11).
     assert (B1 : InvB s1).
     { eapply InvB_append; [exact HB|exact D11| |]; unfold ub; rewrite ?D1, ?D13, Ers, ?Eq; simpl; lia. }
     eapply InvB_mono; [exact B1|assumption|].
     destruct S11 as [(q' & Sq & Sc & Se & Sr & Ssc & Srs & Sqd)|[(q' & Sq & Sc & Se & Sr & Ssc & Srs & Sqd)|(Sc & Sr & Ssc & Srs & Sqd)]].
-    + rewrite D13 in Sq. inv_some. simpl in Sc. discriminate.
-    + rewrite D13 in Sq. inv_some. simpl in Sc. discriminate.
+    + rewrite D13 in Sq. inv_some. unfold ub. rewrite Srs, D1, D13, Ers. simpl. lia.
+    + rewrite D13 in Sq. inv_some. unfold ub. rewrite Srs, Sr, D1, D13, Ers, S6, D9.
+      pose proof (A_ids s HA) as I. rewrite Eq in I. simpl. lia.
     + unfold ub. rewrite Srs, Sr, S6. lia.
   - (* CTake *)
     simpl in H. destruct (queued s); try discriminate. inv_some.
